@@ -255,5 +255,9 @@ func verifPar(a, b func()) {
 		}
 	}
 }
+// verifSetInt stores v in an integer cell of any integer type (the harness does not depend on the
+// exact type the code under test gives a counter).
+func verifSetInt[T ~int32 | ~uint32 | ~int64 | ~uint64 | ~int | ~uint](p *T, v uint64) { *p = T(v) }
+
 func verifResetLocks() {}
 func verifLockHookFrom(n int) {}
